@@ -1,4 +1,5 @@
 import PsiProofs.Helper.C12_Stages3
+import PsiProofs.Helper.C12_Rate
 /-!
 # C12 — streaming stages are chunk-invariant and keep a contiguous time base
 
@@ -187,6 +188,33 @@ theorem auto_th_chunk_invariant (thr : List α → τ) (cmp : τ → α → β) 
     rw [e]
     simpa using this
 
+/-! ### event_rate (time base only; the window counts are covered by the differential run + oracle) -/
+
+/-- `event_rate`: for every sequence of `Events` objects on which the stage does not raise, the
+emitted blocks are contiguous: the first starts at `start + block_size/2` (field = twice that) and each
+next one starts where the previous ended.  **Partial**: says nothing about the rates themselves. -/
+theorem event_rate_blocks_contiguous_partial (size step : Nat) (e0 : Ev) (es : List Ev)
+    (bs : List (Nat × List Nat))
+    (h : outputs (runStage (eventRateStep size step) none (e0 :: es)) = .ok bs) :
+    ContigRate (2 * e0.start + size) bs := by
+  obtain ⟨o, s', bs', hstep, hrest, rfl⟩ := outputs_cons_ok h
+  unfold eventRateStep at hstep
+  split at hstep
+  · cases hstep
+  · injection hstep with hstep
+    injection hstep with h1 h2
+    subst h1 h2
+    exact eventRate_contig size step es _ _ hrest
+
+/-- `event_rate`: the first `Events` object is only buffered; a gap between two objects raises -/
+theorem event_rate_first_buffered_and_gap_raises (size step : Nat) (hs : 0 < step) (e0 e1 : Ev) :
+    outputs (runStage (eventRateStep size step) none [e0]) = .ok []
+    ∧ (e1.start ≠ e0.stop → outputs (runStage (eventRateStep size step) none [e0, e1]) = .error .valueError) := by
+  have h0 : step ≠ 0 := Nat.ne_of_gt hs
+  refine ⟨by simp [runStage, eventRateStep, h0, outputs], ?_⟩
+  intro hne
+  simp [runStage, eventRateStep, h0, hne, outputs]
+
 /-! ## non-vacuity: concrete streams (chunks shorter than q / block, length not divisible) -/
 
 example : outputs (runStage (blockedStep 2) {} (stream (⟨(), (), ()⟩ : Ann Unit Unit Unit) 6 [[1], [], [2, 3, 4], [5]]))
@@ -219,5 +247,11 @@ example : outputs (runStage (iirStep (⟨fun s a => (s + a, s + a)⟩ : Mealy Na
 example : outputs (runStage (autoThStep (fun l => l.sum) (fun th (x : Nat) => decide (th ≤ x)) (fun th m => th :: m) 3) .first
       (stream (⟨(), (), ([] : List Nat)⟩ : Ann Unit Unit (List Nat)) 0 [[1, 2], [0, 9], [4]]))
     = .ok [⟨[false, false, false, true], 0, ⟨(), (), [3]⟩⟩, ⟨[true], 4, ⟨(), (), [3]⟩⟩] := by rfl
+
+/-- block_size 20, block_step 20; events at 3, 4, 25 in [0,30), then [30,100): rates 2,1,0,0 (the recon run) -/
+example : outputs (runStage (eventRateStep 20 20) none [⟨[3, 4, 25], 0, 30⟩, ⟨[], 30, 100⟩])
+    = .ok [(20, [2, 1, 0, 0])] := by rfl
+
+example : ContigRate 20 [(20, [2, 1, 0, 0]), (28, [5])] := ⟨rfl, rfl, trivial⟩
 
 end Psi.Stages
